@@ -277,3 +277,47 @@ Definition simplify_cert (T : tbl) (fresh : list val) (target : val) (before aft
       && negb (mem_nat target (prog_binds q)) && negb (mem_nat o' (prog_binds q))
   | None => false
   end.
+
+(* ---- ElideEmptySetupOps as a structural map ---------------------------------------------------
+   [drop_block tg]: remove the field-less setup (with an input state) whose out-state is [tg],
+   wherever it is.  The real rewrite additionally replaces [tg] by the setup's input state [i]
+   everywhere: after = ren_prog (rn tg i) (drop_prog tg before)  (checked per recorded rewrite,
+   [elide_cert]). *)
+Section Drop.
+Variable tg : val.
+
+Definition is_dropped (s : stmt) : bool :=
+  match s with
+  | SSetup _ o (Some _) [] => Nat.eqb o tg
+  | _ => false
+  end.
+
+Fixpoint drop_stmt (s : stmt) {struct s} : stmt :=
+  let blk := fix blk (b : list stmt) : list stmt :=
+    match b with
+    | [] => []
+    | x :: b' => if is_dropped x then blk b' else drop_stmt x :: blk b'
+    end in
+  match s with
+  | SFor iv lb ub sp its rs body ys => SFor iv lb ub sp its rs (blk body) ys
+  | SIf c rs th thy el ely => SIf c rs (blk th) thy (blk el) ely
+  | _ => s
+  end.
+
+Fixpoint drop_block (b : block) : block :=
+  match b with
+  | [] => []
+  | x :: b' => if is_dropped x then drop_block b' else drop_stmt x :: drop_block b'
+  end.
+End Drop.
+
+Definition drop_prog (tg : val) (p : prog) : prog := mkProg (p_params p) (drop_block tg (p_body p)).
+
+Definition elide_cert (target : val) (before after : prog) : bool :=
+  match setup_in_of target before with
+  | Some i =>
+      let q := drop_prog target before in
+      prog_eqb (ren_prog (rn target i) q) after
+      && negb (mem_nat target (prog_binds q)) && negb (mem_nat i (prog_binds q))
+  | None => false
+  end.
